@@ -13,7 +13,9 @@ TESTS = {
     "replay": ["witness_wal_damage"],
     "persist": ["witness_snapshot_reload_refcounts"],
     "applywal": ["witness_state_apply_logical_op"],
-    "intents": ["witness_intents_protocol"],
+    "intents": ["witness_intents_protocol", "witness_inflight_put_protection"],
+    "skel": ["witness_inflight_put_protection"],
+    "commit": ["witness_inflight_put_protection"],
 }
 
 
